@@ -16,7 +16,7 @@ CLAIMS = {
         ref="DESIGN.md §5 C01", tech=TECH_V + "; bounded executable stand-in (xsim) as counterexample generator and fallback, labelled bounded"),
     "C06": dict(
         text="Verus proves that Simulation::run maps UnprocessedMessages to Deadlock exactly when an observed mailbox is non-empty, listing exactly the non-empty observers with name and size in registration order, and to MessageLoss otherwise, for every observer vector and executor result (unit sim); and that every model added through SimInit::add_model or BuildContext::add_submodel, to any depth, gets exactly one mailbox observer registered under its qualified name (unit reg). Kani proves Queue::len (the observed size) exact when quiescent.",
-        note="that the count handed up by the executor equals sent minus received is decided only for the single-threaded executor and only within the bound of stand-in xexec (real ExecutorInner::run against scripted tasks, also nested); the multi-threaded executor's per-thread counters and the async send path are not decided; ProtoModel::build touches the registries only through add_submodel (private fields); A-exec",
+        note="that the count handed up by the executor equals sent minus received is decided only for the single-threaded executor and only within the bound of stand-in xexec (real ExecutorInner::run against scripted tasks, also nested); the counter moves in Sender::send / Receiver::recv are decided only within the bound of stand-in xchan; the multi-threaded executor's per-thread counters are not decided; ProtoModel::build touches the registries only through add_submodel (private fields); A-exec",
         ref="DESIGN.md §5 C06", tech=TECH_VK),
     "C07": dict(
         text="Verus proves: PriorityQueue is FIFO among equal keys (pq); scheduling inserts exactly one entry keyed (deadline, origin) (sched); a step puts all live same-(time, origin) entries into one task in queue order (sim); SeqFuture polls its futures strictly in push order (seqfut).",
@@ -40,8 +40,8 @@ CLAIMS = {
         ref="DESIGN.md §5 C11", tech=TECH_V + "; bounded executable stand-in (xsim) as counterexample generator and fallback, labelled bounded"),
     "C12": dict(
         text="Kani proves, per capacity (1,2 quick; 1..5 thorough) and for every representation-invariant-satisfying state (any sequence count, fill level, open/closed) - i.e. for histories of any length - the sequential contracts of Queue::{push,pop + MessageBorrow::drop,close,len,next_queue_pos}: never more than capacity messages, FIFO, each message exactly once, len exact, Full only when full, after close pushes fail and accepted messages stay receivable. The concurrency half of the property (linearizability under multi-producer interleavings, no lost wake-ups in channel.rs) is NOT decided.",
-        note="sequential execution only (Kani has no threads); capacities enumerated, not symbolic; compare_exchange_weak never fails spuriously; the async Sender/Receiver wake-up pairing is outside the technique",
-        ref="DESIGN.md §5 C12", tech="Kani (CBMC) inductive per-operation contract harnesses appended to the real channel/queue.rs; complete per capacity"),
+        note="sequential execution only (Kani has no threads); capacities enumerated, not symbolic; compare_exchange_weak never fails spuriously. The async Sender::send / Receiver::recv paths and their wake-up pairing are decided only BOUNDED and only for cooperative schedules on one thread: stand-in xchan runs the real channel.rs + queue.rs (stub crates for async_event, diatomic_waker, recycle_box, crossbeam_utils) with two senders and the receiver under every schedule up to the bound - capacity, exactly-once in producer order, length, waiting tasks resumed, close; interleavings of threads inside one operation are not decided",
+        ref="DESIGN.md §5 C12", tech="Kani (CBMC) inductive per-operation contract harnesses appended to the real channel/queue.rs; complete per capacity; bounded executable stand-in (xchan) for send / recv / wake-ups on one thread, labelled bounded"),
     "C14": dict(
         text="Second sentence - PROOF: Verus proves that Output::{connect, connect_sink} and Requestor::connect add exactly one connection to the value shared by all clones (CachedRwLock::write) and that Output::send / Requestor::send broadcast over a copy synchronised with that shared value (unit ports); Kani proves (loop-free, all u32 values) the CachedRwLock contract this rests on: write bumps the shared epoch exactly once and every clone's next read sees the new value. First sentence - BOUNDED only (stand-in xbcast, never counted as proved): the real text of ports/output/broadcaster.rs and util/task_set.rs, driven on one thread with 1..3 scripted repliers (quick; 4 thorough), every accept/filter pattern, every subset replying late, every completion order, spurious and late wake-ups, partially consumed or dropped earlier queries, clones: the query broadcast returns exactly one reply per accepting replier, computed from the request, in connection order, only after all of them replied, and is never left un-woken.",
         note="sequential execution throughout: interleavings of repliers' wake-ups on DIFFERENT threads (the lock-free Treiber stack of TaskSet under the C11 model) are not decided; map/filter_map connect variants (Fn closures) are not under contract; the source-side broadcasters (ports/source) are not covered",
